@@ -132,6 +132,44 @@ def counter_part(ctx):
     return None
 
 
+# ----------------------------------------------------------------------------- counter under concurrency
+
+def latch_part(ctx):
+    """Incr (backend write loops) against Latch (collector): spec/redis/HotKeyLatch.tla, invariant Conservation.
+    The atomic Latch of counter.go keeps it; Latch as two critical sections (copy, reset) must violate it
+    (anti-vacuity); the real counter is driven free-running and judged by the same conservation law."""
+    ctx.mc("redis", "HotKeyLatch", "MC_HotKeyLatch_atomic.cfg", workers=2, timeout=120)
+    ctx.mc("redis", "HotKeyLatch", "MC_HotKeyLatch_split.cfg", workers=2, timeout=120,
+           expect_violated=["Conservation"], count=False)
+    out = os.path.join(ctx.work, "latchrace.ndjson")
+    rounds, per = (6, 60000) if not ctx.thorough else (16, 150000)
+    ctx.harness(["c19-latchrace", "-rounds", str(rounds), "-per", str(per), "-out", out], timeout=300)
+    recs = kit.read_ndjson(out)
+    if len(recs) != rounds:
+        raise kit.Inconclusive("latch race: %d rounds of %d" % (len(recs), rounds))
+    for r in recs:
+        ctx.case(key="latchrace:%d:%d:%d:%d" % (r["writers"], r["keys"], r["total"], r["nonempty"]), nontrivial=r["nonempty"] >= 2)
+        art = dict(r)
+        perkey = {k: r["accesses"][k] - r["latched"].get(k, 0) - r["remaining"].get(k, 0) for k in r["accesses"]}
+        art["accesses_minus_reported_per_key"] = perkey
+        if r["lost"] != 0 or any(perkey.values()):
+            ctx.violation("counter-inexact/latch-concurrent-with-incr",
+                          "%d writer(s), %d keys, capacity %d (no eviction): %d accesses made, the %d latches returned %d and the "
+                          "counter still held %d: %d accesses are in no latch (per key: %s)" %
+                          (r["writers"], r["keys"], r["capacity"], r["total"], r["latches"], sum(r["latched"].values()),
+                           sum(r["remaining"].values()), r["lost"], perkey), art)
+        if r["maxsize"] > r["capacity"]:
+            ctx.violation("counter-over-capacity/tracks-more-than-capacity",
+                          "a latch returned %d keys with capacity %d" % (r["maxsize"], r["capacity"]), art)
+    ctx.cov["latch_race"] = {"rounds": rounds, "accesses": sum(r["total"] for r in recs),
+                             "latches_while_writers_ran": sum(r["latches"] for r in recs),
+                             "latches_that_returned_counts": sum(r["nonempty"] for r in recs)}
+    ctx.sample({"latch_race_round": {k: recs[0][k] for k in ("writers", "keys", "capacity", "total", "latches", "nonempty", "lost")}})
+    # mandatory stratum: the latches really interleaved with the writers
+    if any(r["nonempty"] < 3 or r["total"] < per for r in recs) or sum(r["nonempty"] for r in recs) < 10 * rounds:
+        raise kit.Inconclusive("latch race did not interleave latches with writers: %s" % ctx.cov["latch_race"])
+
+
 # ----------------------------------------------------------------------------- collector
 
 def collector_models(ctx):
@@ -147,7 +185,7 @@ def collector_models(ctx):
                expect_violated=["ViewSorted"], count=False)
         # ... and restoring the order alone repairs the published report
         ctx.mc("redis", "HotKeyCollector", "MC_HotKeyCollector_evictfix_only.cfg", workers=4, timeout=300)
-    return r
+    return None
 
 
 def sorted_kv(rep):
@@ -394,20 +432,33 @@ def collector_part(ctx):
 # ----------------------------------------------------------------------------- end to end
 
 def e2e_part(ctx):
+    """HOTKEY reply text through a real Redis processor with value compression ENABLED: ramp over 70 keys (capacity
+    50), hot-key storms with a second client asking HOTKEY all the time, and HOTKEY pipelined behind a request that
+    the backend holds back while other clients write and read large values (the reply waits in the session queue)."""
     out = os.path.join(ctx.work, "e2e.ndjson")
-    ctx.harness(["c19-e2e", "-out", out], timeout=300)
+    gated = 60 if ctx.thorough else 40
+    args = ["c19-e2e", "-out", out, "-gated", str(gated)]
+    if not ctx.thorough:
+        args += ["-storms", "1", "-ramp-div", "12"]
+    ctx.harness(args, timeout=300)
     recs = kit.read_ndjson(out)
     summ = [x for x in recs if "summary" in x]
     reps = [x for x in recs if "summary" not in x]
-    if not summ or summ[0]["nonempty"] < 50 or summ[0]["maxlen"] < 50:
-        raise kit.Inconclusive("e2e smoke did not fill the report: %s" % (summ[:1],))
+    if (not summ or summ[0]["nonempty"] < 50 or summ[0]["maxlen"] < 50 or not summ[0].get("compression")
+            or summ[0].get("gated", 0) < gated or summ[0].get("gated_ops", 0) < 20 * gated):
+        raise kit.Inconclusive("e2e smoke did not exercise its strata: %s" % (summ[:1],))
     ctx.cov["e2e"] = summ[0]
     for r in reps:
         ent = r.get("entries") or []
-        ctx.case(key="e2e:%s" % [(x["k"], x["v"]) for x in ent], nontrivial=len(ent) >= 2)
-        art = {"phase": r["phase"], "entries": ent, "text": r.get("text")}
+        ctx.case(key="e2e:%s:%s" % (r.get("parse", ""), [(x["k"], x["v"]) for x in ent]), nontrivial=len(ent) >= 2)
+        art = {"phase": r["phase"], "entries": ent, "text": (r.get("text") or "")[:600]}
         if r.get("parse"):
-            raise kit.Inconclusive("HOTKEY reply not understood: %s" % r["parse"])
+            # not "Collect N keys in this period!" + one "counter: V  keyname: K" line per key: whatever it lists,
+            # it is not keys that were accessed
+            ctx.violation("report-unaccessed-key/hotkey-reply-is-not-the-report",
+                          "HOTKEY reply through the proxy (%s phase) is not the collector's report: %s; reply starts %r" %
+                          (r["phase"], r["parse"][:80], (r.get("text") or "")[:80]), art)
+            continue
         if len(ent) > 50 or r["declared"] != len(ent):
             ctx.violation("report-over-capacity/hotkey-reply", "HOTKEY lists %d keys (declared %d, capacity 50)" % (len(ent), r["declared"]), art)
         if len({x["k"] for x in ent}) != len(ent):
@@ -419,7 +470,9 @@ def e2e_part(ctx):
             ctx.violation("report-unsorted/hotkey-reply-during-%s" % r["phase"],
                           "HOTKEY reply through the proxy not in non-increasing heat order: ... %s ..." %
                           [(x["k"], x["v"]) for x in ent[max(0, i - 1):i + 3]], art)
-    ctx.sample({"hotkey_reply": [(x["k"], x["v"]) for x in (reps[len(reps) // 2].get("entries") or [])[:8]]})
+    good = [r for r in reps if not r.get("parse")]
+    if good:
+        ctx.sample({"hotkey_reply": [(x["k"], x["v"]) for x in (good[len(good) // 2].get("entries") or [])[:8]]})
 
 
 def run(ctx):
@@ -430,12 +483,25 @@ def run(ctx):
         "exhaustive collector model: 3 keys, 2 counters, capacity 2, <= 3 periods, <= 4 accesses, 2 clock ticks, 1 reader; an access is only scheduled between jobs (it commutes with every step but the latch)",
         "the logarithmic counter is modelled as bounded nondeterminism (val' in val..min(255, val+n), a zero counter always leaves zero); its distribution is not checked",
         "collect and evictStale never overlap each other (both run on Collector.Run's goroutine)",
+        "Incr against Latch: exhaustive for 2 keys, 5 accesses, 3 latches; on the code free-running rounds with 1..4 writers, capacity above the number of keys (no eviction) so that conservation is exact",
     ]
-    drift = counter_part(ctx)
-    collector_models(ctx)
-    collector_part(ctx)
-    if ctx.thorough:
-        e2e_part(ctx)
+    # the parts are independent: an infrastructure problem in one of them must not hide what the others observe
+    deferred = []
+
+    def part(fn):
+        try:
+            reason = fn(ctx)
+        except kit.Inconclusive as e:
+            reason = str(e)
+        if reason:
+            kit.log("INCONCLUSIVE (deferred) in %s: %s" % (fn.__name__, str(reason)[:300]))
+            deferred.append("%s: %s" % (fn.__name__, reason))
+
+    part(counter_part)
+    part(latch_part)
+    part(collector_models)
+    part(collector_part)
+    part(e2e_part)
     ctx.cov["rule"] = (
         "counter cases = every transition of HotKeyList's bounded state graph as one path (plus seeded deeper simulations in the "
         "thorough tier), distinct by (capacity, operation sequence), non-trivial = contains an eviction, a Latch or a Free; "
@@ -443,6 +509,6 @@ def run(ctx):
         "non-trivial = a clock tick inside a job, a reader view that differs from the report before and after the job, or >= 2 periods; "
         "e2e cases = distinct HOTKEY replies. Judged by the statement's predicates only (TLC invariants on the recorded trace, "
         "state equality with the model for the counter).")
-    if drift:
-        # pure drift (no stated property broken) is not a verdict; recorded violations stand
-        raise kit.Inconclusive(drift)
+    if deferred:
+        # pure drift / infrastructure trouble is not a verdict; recorded violations stand
+        raise kit.Inconclusive(" | ".join(deferred))
